@@ -5,7 +5,7 @@
 From Coq Require Import ZArith List Bool.
 From Flocq Require Import IEEE754.Binary.
 Import ListNotations.
-Require Import SZV.Base.FloatOps SZV.Model.Quant SZV.Model.QuantFloat SZV.Proofs.Quant_proofs SZV.Proofs.QuantFloat_proofs.
+Require Import SZV.Base.FloatOps SZV.Model.Quant SZV.Model.QuantFloat SZV.Model.QuantFloat2 SZV.Proofs.Quant_proofs SZV.Proofs.QuantFloat_proofs SZV.Proofs.QuantFloat2_proofs.
 Local Open Scope Z_scope.
 
 (* generic: lock-step and bound from the three obligations (any value type, predictor, quantiser) *)
@@ -81,6 +81,25 @@ Theorem C01_double1d_bound_partial : forall c xs h,
 Proof. exact d1d_bound. Qed.
 Print Assumptions C01_double1d_bound_partial.
 
+(* float 2-D (SZ_compress_float_2D_MDQ / decompressDataSeries_float_2D, Lorenzo stencil over the raster-order history): for every
+   input a code is only emitted after the re-check, and the decoder evaluates the very expression the encoder stored *)
+Theorem C01_float2d_recheck : forall c h p x q r, fquant2 c h p x = Some (q, r) -> f_ok2 c x r = true.
+Proof. exact fquant2_ok. Qed.
+Print Assumptions C01_float2d_recheck.
+Theorem C01_float2d_mirror : forall c h p x q r, fquant2 c h p x = Some (q, r) -> fdequant2 c p q = r.
+Proof. exact fquant2_mirror. Qed.
+Print Assumptions C01_float2d_mirror.
+Theorem C01_float2d_lockstep_checked : forall c xs h,
+  let '(nz, _, _, _) := fchecks2 c h xs in
+  nz = true -> let '(qs, es, rs) := fenc2 c h xs in fdec2 c h qs es = Some rs.
+Proof. exact f2d_lockstep. Qed.
+Print Assumptions C01_float2d_lockstep_checked.
+Theorem C01_float2d_bound_partial : forall c xs h,
+  let '(_, _, _, ex) := fchecks2 c h xs in
+  ex = true -> let '(_, _, rs) := fenc2 c h xs in Forall2 (fun x r => f_ok2 c x r = true) xs rs.
+Proof. exact f2d_bound. Qed.
+Print Assumptions C01_float2d_bound_partial.
+
 (* before the repair the double 1-D kernel had no re-check; pred + 2ke rounds away from the value
    (data 0, 0, 0.5, e = 0.1: reconstruction 0.6000000000000001, error 0.10000000000000009 > 0.1) *)
 Theorem C01_double1d_no_recheck_refuted : exists e iv xs,
@@ -98,4 +117,7 @@ Print Assumptions C01_float1d_code_zero_refuted.
 (* non-vacuity: a run on which every check passes *)
 Example C01_ex : let xs := [0x3F800000; 0x3F8CCCCD; 0x3F99999A; 0x40000000; 0x3FA66666] in
   let c := fctx_of 0x3FA999999999999A 32 xs in fchecks1 c [] xs = (true, true, true, true).
+Proof. vm_compute. reflexivity. Qed.
+Example C01_ex2 : let xs := [0x3F800000; 0x3F8CCCCD; 0x3F99999A; 0x40000000; 0x3FA66666; 0x3F800000] in
+  let c := {| fc := fctx_of 0x3FA999999999999A 32 xs; frow := 3%nat |} in fchecks2 c [] xs = (true, true, true, true).
 Proof. vm_compute. reflexivity. Qed.
